@@ -184,6 +184,10 @@ func run(t *tape.Tape, cfg sim.Config, listen bool) (res sim.Result) {
 		r.subset = base
 		r.instSubset = []map[string]bool{mk(), mk(), nil}
 	}
+	if listen && (cfg.Class == "all" || cfg.Class == "subset") && t.Chance(1, 4) {
+		r.noFactory = map[int]bool{t.Choose(3): true}
+		res.Stat("probe.one_instance_compiled_without_any_listener_factory", 1)
+	}
 	if listen && cfg.Class == "all" && t.Chance(1, 3) {
 		r.perInstCompile = true
 		res.Stat("probe.one_compilation_per_instance_same_selection", 1)
